@@ -299,6 +299,38 @@ def run(ck):
         graphs = list(small_graphs(6, 5)) + [g for g in small_graphs(7, 5, rnd=rnd, sample=30000) if g[0] == 7] + \
                  [g for g in small_graphs(8, 3, rnd=rnd, sample=15000) if g[0] == 8]
         exhaustive = 'all labelled connected graphs <= 6 atoms (<= 5 rings, degree <= 4); 30000 random 7-atom and 15000 random 8-atom (<= 3 rings) graphs'
+    # dense polycycles of eight atoms around a three-bridge core (bridgeheads joined by three one-atom bridges, three more atoms, random further
+    # bonds up to five rings), each under several numberings: the accepted rings merge in numbering-dependent order
+    def dense8(r):
+        core = [(1, 3), (1, 4), (1, 5), (2, 3), (2, 4), (2, 5)]
+        while True:
+            e = set(core)
+            deg = {k: sum(1 for x in e if k in x) for k in range(1, 9)}
+            for new in (6, 7, 8):          # attach each new atom by two bonds
+                for t in r.sample([k for k in range(1, new) if deg[k] < 4], 2):
+                    e.add((t, new))
+                    deg[t] += 1
+                    deg[new] += 1
+            if len(e) == 12 and all(v <= 4 for v in deg.values()):
+                return sorted(e)
+    def dense8b(r):      # the core plus six random further bonds among all eight atoms (every atom at least twice bonded)
+        core = [(1, 3), (1, 4), (1, 5), (2, 3), (2, 4), (2, 5)]
+        while True:
+            e = set(core)
+            pairs = [(a, b) for a in range(1, 9) for b in range(a + 1, 9) if (a, b) not in e and not (a <= 5 and b <= 5)]
+            e |= set(r.sample(pairs, 6))
+            deg = {k: sum(1 for x in e if k in x) for k in range(1, 9)}
+            if all(2 <= v <= 4 for v in deg.values()) and connected(8, sorted(e))[0]:
+                return sorted(e)
+    hard = [[(1, 2), (1, 4), (1, 6), (1, 8), (2, 7), (3, 6), (3, 7), (3, 8), (4, 6), (4, 7), (5, 6), (5, 8)]]      # one skeleton of this family, many numberings
+    for q in range(40 if ck.quick else 400):
+        e = dense8(rnd) if q % 2 else dense8b(rnd)
+        if q < len(hard):
+            e = hard[q]
+        for _ in range((60 if q < len(hard) else 6) if ck.quick else (400 if q < len(hard) else 12)):
+            perm = list(range(1, 9))
+            rnd.shuffle(perm)
+            graphs.append((8, sorted(tuple(sorted((perm[a - 1], perm[b - 1]))) for a, b in e)))
     seen = set()
     cases = []
     for n, e in graphs:
